@@ -23,11 +23,25 @@ theorem eval_case (X : Ctx p q) {scrut : Fun.Term} {ta : Fun.Tys} {cs : Fun.Clau
     {cty : Option Fun.Ty} {env : Fun.Env} {k : Fun.Stack} {c : Core.Term} {s : Core.Stmt}
     {ρ0 ρ : CEnv} {out : Out} {n : Nat} (hg : good p (.case scrut ta cs cty) = true)
     (hc : Compiled q n (.case scrut ta cs cty) c s)
-    (he : EnvRel (GP p) q n (fv (.case scrut ta cs cty)) env ρ0) (hr : CRel (GP p) q n k c ρ0)
-    (hbd : BoundOn (tfvStmt s []) ρ0) (hag : AgreeOn (tfvStmt s []) ρ0 ρ) :
+    (he : EnvRel (GP p) p q n (fv (.case scrut ta cs cty)) env ρ0) (hr : CRel (GP p) p q n k c ρ0)
+    (hbd : BoundOn (tfvStmt s []) ρ0) (hag : AgreeOn (tfvStmt s []) ρ0 ρ)
+    (hT : STM p (.eval (.case scrut ta cs cty) env k)) :
     Chunk p q (R p q) true true (funSize (.case scrut ta cs cty)) (.eval (.case scrut ta cs cty) env k) ⟨s, ρ, out, n⟩ := by
   simp only [good, Bool.and_eq_true] at hg
   obtain ⟨⟨⟨hgs, hncs⟩, hgc⟩, hnct⟩ := hg
+  obtain ⟨t0, hcty⟩ := annO_some hnct
+  have hkind : Core.isCodata q.codataTypes (compileTy t0) = kkind k := by
+    obtain ⟨τ2, h1, h2⟩ := X.kind hT
+    simp only [getType] at h1
+    rw [hcty] at h1; cases h1
+    exact h2
+  -- the scrutinee has a data type
+  have hscr : ∃ τ, getType scrut = some τ ∧ Core.isCodata q.codataTypes (compileTy τ) = false := by
+    cases hT with
+    | eval Γ τ0 he0 ht hk =>
+      simp only [Typed.TypedM] at ht
+      obtain ⟨_, _, σ, d, hsc, hd, _⟩ := ht
+      exact ⟨σ, Typed.getType_of_typed p _ _ _ hsc, by rw [X.cod σ]; exact isCodataTy_of_dataDecl X.progM hd⟩
   obtain ⟨st, st', hcwc, hst, htn, hcn⟩ := hc
   rw [cwc_case] at hcwc
   have f1 : FSteps p (.eval (.case scrut ta cs cty) env k)
@@ -35,10 +49,10 @@ theorem eval_case (X : Ctx p q) {scrut : Fun.Term} {ta : Fun.Tys} {cs : Fun.Clau
   refine Chunk.prefix f1 (.refl _) rfl (fun _ => Nat.le_refl _) (fun h => .inr h) ?_
   have hnames : ∀ y ∈ clausesNames cs, y ∈ binderNamesClauses cs :=
     fun y hy => clausesNames_binder cs y hy
-  refine guard_sim X (fv (.case scrut ta cs cty)) hcwc hnct
+  refine guard_sim X (fv (.case scrut ta cs cty)) hcwc hcty hkind htn.nosig
     (fun y hy => htn.bd y (by simp [binderNames, hnames y hy]))
     htn.fv hcn he hr hbd hag ?_
-  intro c' st1 s' ρ0' ρ' hcore hfs hcn' hyg he' hr' hbd' hag'
+  intro n c' st1 s' ρ0' ρ' _ hcore hfs hcn' hyg he' hr' hbd' hag'
   unfold caseCore at hcore
   have hfr : FS st1 (if (decide (clausesLen cs ≤ 1) || isLeaf c') = true then (c', st1)
       else share c' st1).2 := stepRel_shareIf fs_stepRel _ c' st1
@@ -49,8 +63,7 @@ theorem eval_case (X : Ctx p q) {scrut : Fun.Term} {ta : Fun.Tys} {cs : Fun.Clau
   | ok rc =>
     obtain ⟨cs', st2⟩ := rc
     simp only [hcc] at hcore
-    obtain ⟨τ, hty', hncτ⟩ := X.cod.ncd hncs
-    have hty : getType scrut = some τ := by rw [getType_eq]; exact hty'
+    obtain ⟨τ, hty, hncτ⟩ := hscr
     have htriv : True := trivial
     cases htriv with
     | intro =>
@@ -61,7 +74,7 @@ theorem eval_case (X : Ctx p q) {scrut : Fun.Term} {ta : Fun.Tys} {cs : Fun.Clau
       have hstr := hst2.of_fresh fc.1
       have f0r : FS st r.2 := fs_stepRel.trans hfs hfr
       have f02 : FS st st2 := fs_stepRel.trans f0r fc
-      obtain ⟨hr1, hcn1⟩ : CRel (GP p) q n k r.1 ρ0' ∧ ConsNames r.1 r.2 n := by
+      obtain ⟨hr1, hcn1⟩ : CRel (GP p) p q n k r.1 ρ0' ∧ ConsNames r.1 r.2 n := by
         rw [← hrdef]
         exact shareIf_rel _ hr' hcn' (by rw [hrdef]; exact hstr.1)
       have hyg1 : ∀ b ∈ tfvTerm r.1 [], b.var.name ∉ clausesNames cs := by
@@ -71,7 +84,7 @@ theorem eval_case (X : Ctx p q) {scrut : Fun.Term} {ta : Fun.Tys} {cs : Fun.Clau
         · rw [if_pos hcond] at hb
           exact hyg b hb
         · rw [if_neg hcond] at hb
-          exact hyg b (tfv_share_subset c' st1 hr'.inert.consOK b hb)
+          exact hyg b (tfv_share_subset c' st1 hr'.consOK b hb)
       have cnames : ClausesNames cs r.2 :=
         ⟨fun y hy => f0r.sub y (htn.fv y (by simp [fv, hy])),
           fun y hy => f0r.sub y (htn.bd y (by simp [binderNames, hy])), f0r.2 htn.nosig⟩
@@ -79,7 +92,7 @@ theorem eval_case (X : Ctx p q) {scrut : Fun.Term} {ta : Fun.Tys} {cs : Fun.Clau
         (fun y hy => by simp [binderNames, hy]) f02
       obtain ⟨ρp, hep, hrp, hbdp, hagp, hbdK⟩ :=
         ideal_pad (tfvClauses cs' []) he' hr1 hbd' hag'
-      have hK : KRel (GP p) q n (.caseF cs env :: k) (.case ρp cs') := by
+      have hK : KRel (GP p) p q n (.caseF cs env :: k) (.case ρp cs') := by
         refine KRel.caseF (ρ0 := ρp) (fun K cl hf => goodClauses_find p cs hgc K cl hf)
           ⟨r.2, st2, hcc, hst2, cnames, hcn1⟩ (hep.sub fun y hy => by simp [fv, hy]) hrp ?_ hbdK
           (.refl _ _)
